@@ -14,6 +14,7 @@ import Hy.Drv.Stats
 import Hy.Drv.Reconnect
 import Hy.Drv.QuicInitial
 import Hy.Drv.Brutal
+import Hy.Drv.Gecko
 
 open Hy.Drv
 
@@ -49,4 +50,5 @@ def main (args : List String) : IO UInt32 := do
   | ["reconnect"] => loopPure stdin stdout Reconnect.step; return 0
   | ["sniff"] => loopPure stdin stdout QuicInitial.step; return 0
   | ["brutal"] => loopState stdin stdout Brutal.step Brutal.init; return 0
+  | ["gecko"] => loopState stdin stdout Gecko.step Gecko.init; return 0
   | _ => IO.eprintln "usage: hydrv <component>"; return 2
